@@ -221,10 +221,13 @@ def search(ck, tier, seed):
             ck.finding("sampling:MADEMoG:fails", "%s %s" % (sm[1], sm[2]), {"search": "mog-sampling", "K": K})
             continue
         smp = sm[1].reshape(-1).double().sort().values
-        cdf = torch.cumsum(dens, 0) * (grid[1] - grid[0])
+        step_ = float(grid[1] - grid[0])
+        cdf = torch.cat([torch.zeros(1, dtype=torch.float64), torch.cumsum((dens[1:] + dens[:-1]) * 0.5 * step_, 0)])      # trapezoids
         emp = torch.arange(1, smp.numel() + 1, dtype=torch.float64) / smp.numel()
-        idx = torch.searchsorted(grid, smp).clamp(max=grid.numel() - 1)
-        ks = float((cdf[idx] - emp).abs().max())
+        idx = torch.searchsorted(grid, smp).clamp(min=1, max=grid.numel() - 1)
+        frac = ((smp - grid[idx - 1]) / step_).clamp(0, 1)
+        cdf_at = cdf[idx - 1] + frac * (cdf[idx] - cdf[idx - 1])                                                     # interpolated at the sample
+        ks = float(torch.maximum((cdf_at - emp).abs(), (cdf_at - (emp - 1.0 / smp.numel())).abs()).max())
         if ks > 0.02:
             ck.finding("sampling:MADEMoG:samples-do-not-follow-density",
                        "%d mixture components: KS distance %.3f between 20000 samples and the integrated density" % (K, ks),
@@ -238,16 +241,37 @@ def search(ck, tier, seed):
             ("ConditionalIndependentBernoulli", lambda: discrete.ConditionalIndependentBernoulli([2]),
              torch.tensor([[30.0, -30.0], [-30.0, -30.0], [30.0, 30.0]]), torch.tensor([[1.0, 0.0], [0.0, 0.0], [1.0, 1.0]]))):
         d = mkd().eval()
-        for n_, bs in ((12, None), (12, 6), (12, 5), (12, 1), (7, 3), (7, 10)):
+        for n_, bs in ((12, None), (12, 6), (12, 5), (12, 1), (7, 3), (7, 10), (1, None), (1, 1)):
             torch.manual_seed(seed + n_)
+            ctx_before = ctxs.clone()
             with torch.no_grad():
                 r = attempt(d.sample, n_, ctxs, bs) if bs is not None else attempt(d.sample, n_, ctxs)
+                # one draw per row is where repeat_rows hands back a view of the parameters: sampling must leave the context,
+                # and with it mean() and log_prob, as they were
+                if n_ == 1:
+                    sl = attempt(d.sample_and_log_prob, 1, ctxs)
+                    mn = attempt(d.mean, ctxs)
+                    if not torch.equal(ctxs, ctx_before):
+                        ck.finding("sampling:context-changed-by-sampling:%s" % dname,
+                                   "sample(1, context) / sample_and_log_prob(1, context) changed the context tensor", {"search": "batched-sampling", "class": dname, "n": 1})
+                        ctxs = ctx_before.clone()
+                    elif mn[0] == "ok" and float((mn[1].float() - want).abs().max()) > 1e-4:
+                        ck.finding("mean:wrong-after-sampling:%s" % dname, "mean(context) after sampling once per row: %s" % mn[1].tolist(),
+                                   {"search": "batched-sampling", "class": dname, "n": 1})
+                    elif sl[0] == "ok":
+                        lp2 = d.log_prob(sl[1][0].reshape(3, 2), ctxs)
+                        if not torch.allclose(sl[1][1].reshape(3), lp2, atol=1e-4):
+                            ck.finding("sampling:returned-log_prob-is-not-log_prob-of-sample:%s" % dname,
+                                       "sample_and_log_prob(1, context): returned %s, log_prob of the returned samples %s" % (sl[1][1].reshape(3).tolist(), lp2.tolist()),
+                                       {"search": "batched-sampling", "class": dname, "n": 1})
             ck.case(("batched-sampling", dname, n_, bs), nontrivial=True)
             case = {"search": "batched-sampling", "class": dname, "n": n_, "batch_size": bs, "seed": seed}
             if r[0] != "ok" or list(r[1].shape) != [3, n_, 2]:
                 ck.finding("sampling:batched:%s" % dname, "sample(%d, 3 context rows, batch_size=%s) -> %s" % (n_, bs, list(r[1].shape) if r[0] == "ok" else r[1:]), case)
                 continue
             m_ = r[1].float().mean(1)
+            if n_ == 1:
+                continue           # a single draw says nothing about the mean
             if float((m_ - want).abs().max()) > 1.0:
                 ck.finding("sampling:samples-do-not-follow-their-context-row:%s" % dname,
                            "sample(%d, 3 context rows, batch_size=%s): per-row sample means %s, the rows' own means are %s"
